@@ -36,6 +36,9 @@ use std::mem::{self, MaybeUninit};
 use std::ptr;
 use std::sync::atomic::{self, AtomicBool};
 
+#[cfg(feature = "verif-hooks")]
+use crate::verif::{point, site};
+
 /// When dropped, copies from `src` into `dest`.
 struct CopyOnDrop<T> {
     src: *const T,
@@ -793,6 +796,8 @@ where
 
         // Very short slices get sorted using insertion sort.
         if len <= MAX_INSERTION {
+            #[cfg(feature = "verif-hooks")]
+            point(site::SORT_INSERTION, len as u64);
             insertion_sort(v, is_less);
             return false;
         }
@@ -800,6 +805,8 @@ where
         // If too many bad pivot choices were made, simply fall back to heapsort in order to
         // guarantee `O(n * log(n))` worst-case.
         if limit == 0 {
+            #[cfg(feature = "verif-hooks")]
+            point(site::SORT_HEAPSORT, len as u64);
             heapsort(v, is_less);
             return false;
         }
@@ -807,6 +814,8 @@ where
         // If the last partitioning was imbalanced, try breaking patterns in the slice by shuffling
         // some elements around. Hopefully we'll choose a better pivot this time.
         if !was_balanced {
+            #[cfg(feature = "verif-hooks")]
+            point(site::SORT_BREAK_PATTERNS, len as u64);
             break_patterns(v);
             limit -= 1;
         }
@@ -819,6 +828,8 @@ where
         if was_balanced && was_partitioned && likely_sorted {
             // Try identifying several out-of-order elements and shifting them to correct
             // positions. If the slice ends up being completely sorted, we're done.
+            #[cfg(feature = "verif-hooks")]
+            point(site::SORT_PARTIAL_INSERTION, len as u64);
             if partial_insertion_sort(v, is_less) {
                 return false;
             }
@@ -829,6 +840,8 @@ where
         // This case is usually hit when the slice contains many duplicate elements.
         if let Some(ref p) = pred {
             if !is_less(p, &v[pivot]) {
+                #[cfg(feature = "verif-hooks")]
+                point(site::SORT_PARTITION_EQUAL, len as u64);
                 let mid = partition_equal(v, pivot, is_less);
 
                 // Continue sorting elements greater than the pivot.
@@ -860,8 +873,12 @@ where
                 v = left;
             }
         } else if canceled.load(atomic::Ordering::Relaxed) {
+            #[cfg(feature = "verif-hooks")]
+            point(site::SORT_CANCEL_SEEN, len as u64);
             break true;
         } else {
+            #[cfg(feature = "verif-hooks")]
+            point(site::SORT_JOIN, len as u64);
             // Sort the left and right half in parallel.
             let (canceled1, canceled2) = rayon::join(
                 || recurse(left, is_less, pred, limit, canceled),
